@@ -103,6 +103,36 @@ Proof.
 Qed.
 Print Assumptions C19_sender_attribution.
 
+(* the slot: tss-lib files a message under From.Index and never looks at the key again.  The lookup returns the position
+   of the EQUAL key, and nothing for a non-member *)
+Theorem C19_locate_sound :
+  forall ids k i d, locate ids k = Some i -> nth i ids d = k /\ (i < length ids)%nat.
+Proof. exact locate_nth. Qed.
+Print Assumptions C19_locate_sound.
+
+Theorem C19_locate_nonmember :
+  forall ids k, ~ In k ids -> locate ids k = None.
+Proof. exact locate_nonmember. Qed.
+Print Assumptions C19_locate_nonmember.
+
+(* whatever OnMsg queues from wire bytes is attributed to the transport sender AND filed under that sender's own slot of
+   the session, or under no slot at all (then tss-lib refuses it) *)
+Theorem C19_sender_slot :
+  forall c parsed ids from k s, on_msg_slot c parsed ids from = Some (k, s) ->
+    k = from /\ (forall i, s = Some i -> nth_error ids i = Some from) /\ (s = None <-> ~ In from ids).
+Proof. exact on_msg_slot_bound. Qed.
+Print Assumptions C19_sender_slot.
+
+(* ... and the lookup in the Go source is that one (shape of locatePartyIndex, of its use in OnMsg and of the sorting in Init
+   as generated): for every session and every key it yields a slot that is the key's own position, none for a non-member *)
+Theorem C19_sender_slot_code :
+  (forall ids k, exists s, slot_of Gen.Adapters.ecdsa_locate_exact ids k = Some s /\
+     (forall i, s = Some i -> nth_error ids i = Some k) /\ (~ In k ids -> s = None)) /\
+  (forall ids k, exists s, slot_of Gen.Adapters.eddsa_locate_exact ids k = Some s /\
+     (forall i, s = Some i -> nth_error ids i = Some k) /\ (~ In k ids -> s = None)).
+Proof. exact (conj (slot_of_exact Gen.Adapters.ecdsa_locate_exact eq_refl) (slot_of_exact Gen.Adapters.eddsa_locate_exact eq_refl)). Qed.
+Print Assumptions C19_sender_slot_code.
+
 (* digest binding: the comparison rule *)
 Theorem C19_digest_bound :
   forall requested signed s, sign_result requested signed = SOk s -> s = requested /\ s = signed.
@@ -143,6 +173,7 @@ Example C19_example :
   eddsa_classify "type.googleapis.com/binance.tsslib.eddsa.keygen.KGRound2Message2" = (3, true) /\
   eddsa_classify "type.googleapis.com/unknown" = (0, false) /\
   on_msg 7 7 = Enqueue /\ on_msg 7 8 = Drop /\ on_msg 65535 65535 = Drop /\
+  on_msg_slot onmsg_std true [1; 3; 5] 3 = Some (3, Some 1%nat) /\ on_msg_slot onmsg_std true [1; 3; 5] 2 = Some (2, None) /\
   sign_result [1; 2] [1; 2] = SOk [1; 2] /\ sign_result [1; 2] [2] = SErr /\
   eddsa_sign sign_fixed (eddsa_lib sign_fixed) [0; 7] = SOk [0; 7] /\
   hash_to_int [1; 0] = 256.
